@@ -205,4 +205,49 @@ theorem extendLeaf_sigma_rows (us : Units) (nm : String) (o no : Nat) (u : Optio
             rcases htag with ht | ht <;> simp [ht]
   · simp at h
 
+/-! ### a second name of an array is served from the memo -/
+
+theorem lookup_filter_ne (k e : Nat) (hne : k ≠ e) : ∀ (l : List (Nat × Nat)),
+    List.lookup k (l.filter (fun p => p.1 != e)) = List.lookup k l
+  | [] => rfl
+  | (a, v) :: l => by
+    by_cases hae : a = e
+    · subst hae
+      have hka : (k == a) = false := by simpa using hne
+      simp [List.filter, List.lookup, hka, lookup_filter_ne k a hne l]
+    · have : (a != e) = true := by simpa using hae
+      simp only [List.filter, this, List.lookup]
+      split <;> simp_all [lookup_filter_ne k e hne l]
+
+/-- extending a second field that holds the same array as an already extended field (and whose partner in the other
+dataset is any array): the field is served from the memo — it gets the very array made for the first name -/
+theorem extendLeaf_served_from_memo (us : Units) (nm : String) (k : Kind) (hk : k = .time ∨ k = .timeDelta)
+    (o no : Nat) (u : Option (List String)) (l : Nat)
+    (nm2 : String) (o2 no2 : Nat) (u2 : Option (List String)) (l2 : Nat) (s : St) (r : Nat) (oa ob : Obj)
+    (hoa : s.heap[o]? = some oa) (hob : s.heap[o2]? = some ob) (hka : oa.kind = k) (hkb : ob.kind = k)
+    (hnd : oa.ndim = ob.ndim) (hit : s.find o = some r) :
+    extendLeaf us nm k o no u l (.leaf nm2 k o2 no2 u2 l2) s = .ok (.leaf nm k r (objLen s.heap r) u l, s) := by
+  rcases hk with rfl | rfl <;>
+  simp [extendLeaf, hoa, hob, hka, hkb, hnd, Kind.isDelta, Kind.isPlain, insertObj, hit]
+
+/-- **the mechanism of the listed finding** `extend:shared-array-one-name-missing`: padding (`append_empty` /
+`prepend_empty`) a time field whose array was already extended under another name does not pad — the memo of `insert`
+hands out the array made for the other name, so the "missing" name holds the other dataset's values -/
+theorem padField_served_from_memo (front : Bool) (n : Nat) (nm : String) (k : Kind) (hk : k = .time ∨ k = .timeDelta)
+    (o no : Nat) (u : Option (List String)) (l : Nat) (s : St) (r : Nat) (ob : Obj)
+    (hob : s.heap[o]? = some ob) (hkb : ob.kind = k) (hit : s.find o = some r) :
+    ∃ s', padField front n (.leaf nm k o no u l) s = .ok (.leaf nm k r (objLen s'.heap r) u l, s') ∧
+      s'.find o = some r := by
+  have hlt : o < s.heap.length := (List.getElem?_eq_some_iff.mp hob).1
+  have hit1 : ∀ e : Obj, (s.alloc e).2.find o = some r := fun e => by simpa [St.alloc, St.find] using hit
+  rcases hk with rfl | rfl <;>
+  · simp only [padField, hob, hkb, bne_self_eq_false, Bool.false_or, hit, Option.isNone_some, Bool.and_false,
+      Bool.false_eq_true, if_false, Kind.isPlain, Kind.isDelta]
+    simp only [insertObj_hit_a _ o _ _ _ r (hit1 _)]
+    refine ⟨_, rfl, ?_⟩
+    have hne : ¬ (o = s.heap.length) := by omega
+    simp only [St.pop, St.alloc, St.find]
+    rw [lookup_filter_ne o _ hne]
+    exact hit
+
 end Midgard.Dataset
